@@ -365,7 +365,7 @@ def run(ctx):
     if getattr(ctx, "suppressed", 0):
         ctx.info.append("%d further failing cases of the same kinds are not listed" % ctx.suppressed)
     # a finding that is a recorded known finding explains the model/proof side only if the model agrees with the code
-    if ctx.broken and not ctx.findings and os.path.exists(os.path.join(verif.ROOT, "harness", "bin", "c10")):
+    if ctx.broken and not ctx.findings and os.path.exists(os.path.join(verif.HBIN, "c10")):
         ok, _ = ctx.harness_run("c10", ["-out", "search.jsonl", "-seed", ctx.seed + 23, "-n", 600], timeout=1500)
         if ok:
             srows = ctx.read_jsonl(os.path.join(ctx.work, "search.jsonl"))
